@@ -1,7 +1,7 @@
 """C01 - compiled circuit returns exactly the value the source program denotes."""
 from evalcheck import *
 
-RULE = ("impl->spec: corpus programs (extracted from the repository's tests, examples and docs) and natively generated random well-typed programs "
+RULE = ("spec->impl: arm lists enumerated by Gen_Arms.tla are evaluated on every value of the scrutinee type (first matching arm decides); impl->spec: corpus programs (extracted from the repository's tests, examples and docs) and natively generated random well-typed programs "
         "(all operators, casts, if/else, match, blocks, let/let mut, assignments through nested accessors, for loops, calls, arrays/ranges/tuples/structs/enums, "
         "consts, shadowing) are compiled by the real compiler in the four configurations {SSA, register} x {dedup on, off} and evaluated on boundary-biased "
         "random arguments; every run is judged by Trace_Eval.tla: arguments re-encoded by Layout.tla, source semantics by GarbleSem.tla, output bits compared. "
@@ -13,3 +13,30 @@ def run(run, harness, replay=None):
     quick = [["eval-corpus", corpus, "@OUT", "60", "6"], ["eval-gen", "@OUT", "1000", "6", "default"], ["eval-gen", "@OUT", "300", "6", "default", "effects"], ["eval-gen", "@OUT", "500", "6", "mutation", "effects"]]
     thorough = [["eval-corpus", corpus, "@OUT", "400", "16"], ["eval-gen", "@OUT", "12000", "12", "default"], ["eval-gen", "@OUT", "4000", "8", "default", "effects"], ["eval-gen", "@OUT", "3000", "8", "mutation"]]
     run_eval_check(run, harness, replay, quick, thorough, RULE)
+    if not replay:
+        # spec->impl family for pattern matching: TLC (Gen_Arms.tla, the generator of C08) enumerates arm lists over every value of
+        # bool / u8 / i8 with the deciding arm per value; every accepted match is evaluated on every value (only the value clause is judged here)
+        cfg = "narrow2" if run.tier == "quick" else "narrow3s"
+        cpath = os.path.join(run.work, "arms_%s.ndjson" % cfg)
+        r, n = tlc_cases("Gen_Arms", "Gen_Arms_%s.cfg" % cfg, cpath, workers=8, timeout=6000, xmx="8g")
+        run.add_tlc("Gen_Arms/" + cfg, r)
+        rpath, wpath = cpath + ".res", cpath + ".wit"
+        run_harness(harness, ["arms-replay", cpath, rpath, wpath], timeout=7200)
+        wrong = []
+        for x in read_ndjson(rpath):
+            if x.get("summary"):
+                run.cov["evaluations"] += x["evals"]
+                run.cov["traces_validated_against_impl"] += x["evals"]
+                run.cov["match_programs"] = x["n"]
+            elif x["what"] == "wrong-arm":
+                wrong.append(x)
+        os.remove(cpath)
+        groups = {}
+        for b in wrong:
+            shape = re.sub(r"-?\d+", "N", " | ".join(a.split("=>")[0].strip() for a in b["arms"]))
+            groups.setdefault("%s:%s" % (b["ty"], shape), []).append(b)
+        if groups:
+            sig, items = sorted(groups.items(), key=lambda kv: (len(kv[0]), kv[0]))[0]
+            w = items[0]
+            run.fail("match-value:" + w["ty"], "%d match programs (%d shapes) return the value of another arm than the first matching one; simplest: %s observed: %s" % (len(wrong), len(groups), w["src"].replace("\n", " ")[-260:], w["observed"][:300]),
+                     {"id": "match-program", "src": w["src"], "inputs": [], "observed": w["observed"], "count": len(wrong)})
